@@ -49,6 +49,9 @@ static void __attribute__((noinline)) scribble(void)
 	__asm__ volatile("" : : "r"(big) : "memory");
 }
 
+/* raw format without filters: the intended output stream is the data itself (then zero padding) */
+static int is_raw, has_filter, ever_bad; static unsigned char *rawbuf; static size_t rawlen, rawcap;
+
 static uint64_t mix(uint64_t h, uint64_t x) { return (h ^ x) * 1099511628211ULL; }
 
 static void ev_reset(void) { ev_n = 0; ev_h = 14695981039346656037ULL; ev_bad = 0; }
@@ -102,6 +105,15 @@ static void tail(void)
 		i = j;
 	}
 	printf(" h=%llu bad=%d acc=%zu:%llu", (unsigned long long)ev_h, ev_bad, acc_len, (unsigned long long)acc_h);
+	if (is_raw && !has_filter && !ever_bad) {
+		/* C09 predicate (up to and including the first call that reports a failure; what a
+		 * caller does to the stream by writing on after a fatal error is its own business) on the real bytes: what the callback accepted so far is a prefix of
+		 * (data written so far ++ zeros) */
+		uint64_t hh = 14695981039346656037ULL;
+		for (size_t i = 0; i < acc_len; i++) { hh ^= (i < rawlen ? rawbuf[i] : 0); hh *= 1099511628211ULL; }
+		printf(" stream=%s", hh == acc_h ? "ok" : "BAD");
+	}
+	if (ev_bad) ever_bad = 1;
 	if (mem_mode) {
 		/* nothing may be stored at or beyond `used` */
 		int clean = 1;
@@ -115,6 +127,7 @@ static void c_begin(void)
 {
 	a = NULL; nans = curans = 0; opener_ret = 0; freed = 0; leaked = 0; mem_mode = 0; mem_block = NULL; mem_used = 0;
 	acc_h = 14695981039346656037ULL; acc_len = 0; ev_reset();
+	is_raw = has_filter = ever_bad = 0; rawlen = 0;
 }
 
 static unsigned filetype_of(const char *s)
@@ -167,12 +180,14 @@ static void c_op(char *line)
 		printf("bad-op\n");
 	} else if (n == 2 && !strcmp(w[0], "fmt")) {
 		int r;
+		is_raw = !strcmp(w[1], "raw");
 		if (!strcmp(w[1], "raw")) r = archive_write_set_format_raw(a);
 		else if (!strcmp(w[1], "ustar")) r = archive_write_set_format_ustar(a);
 		else r = archive_write_set_format_by_name(a, w[1]);
 		printf("fmt %s\n", vh_st(r));
 	} else if (n == 2 && !strcmp(w[0], "filter")) {
 		int r;
+		has_filter = 1;
 		if (!strcmp(w[1], "b64")) r = archive_write_add_filter_b64encode(a);
 		else if (!strcmp(w[1], "uu")) r = archive_write_add_filter_uuencode(a);
 		else r = archive_write_add_filter_by_name(a, w[1]);
@@ -230,6 +245,10 @@ static void c_op(char *line)
 			b = malloc(len ? len : 1);
 			for (size_t i = 0; i < len; i++) b[i] = (unsigned char)((seed + i * 7 + i / 256) & 0xff);
 		}
+		if (is_raw && ((struct archive_write *)a)->archive.state == ARCHIVE_STATE_DATA) {
+			if (rawlen + len > rawcap) { rawcap = (rawlen + len) * 2 + 64; rawbuf = realloc(rawbuf, rawcap); }
+			memcpy(rawbuf + rawlen, b, len); rawlen += len;
+		}
 		la_ssize_t r = archive_write_data(a, b, len);
 		free(b);
 		if (r >= 0) printf("data %lld", (long long)r); else printf("data %s", vh_st((int)r));
@@ -247,7 +266,7 @@ static void c_op(char *line)
 static void c_end(void)
 {
 	if (a && !freed) archive_write_free(a);
-	free(mem_block); free(ev_sz); ev_sz = NULL; ev_cap = 0;
+	free(mem_block); free(ev_sz); ev_sz = NULL; ev_cap = 0; free(rawbuf); rawbuf = NULL; rawcap = 0;
 	if (leaked && !vh_nofork) { fflush(stdout); _exit(0); }
 }
 
